@@ -62,7 +62,7 @@ let op_now (o : op) : n option =
 (* ---- printing *)
 let sub_str (s : sub0) : string =
   String.concat "." [ string_of_n s.s_id; string_of_n s.s_fab; string_of_n s.s_peer;
-    string_of_n s.s_min; string_of_n s.s_max; inst s.s_rep_at; inst s.s_retry_at;
+    string_of_n s.s_min; string_of_n s.s_max; inst s.s_rep_at; inst s.s_acc; inst s.s_retry_at;
     string_of_n s.s_fail; string_of_n s.s_seen; string_of_n s.s_seen_ev;
     string_of_int (mask_of_paths s.s_paths) ]
 let ctx_str (x : ctx) : string =
@@ -86,7 +86,7 @@ let digest_state (st : state) (clock : n) : int64 =
   let pn x = p (i64_of_n x) in
   let pb b = p (if b then 1L else 0L) in
   let psub (s : sub0) =
-    pn s.s_id; pn s.s_fab; pn s.s_peer; pn s.s_min; pn s.s_max; pn s.s_rep_at; pn s.s_retry_at;
+    pn s.s_id; pn s.s_fab; pn s.s_peer; pn s.s_min; pn s.s_max; pn s.s_rep_at; pn s.s_acc; pn s.s_retry_at;
     pn s.s_fail; pn s.s_seen; pn s.s_seen_ev; p (Int64.of_int (mask_of_paths s.s_paths)) in
   pn st.next_sid; pn st.count; pn st.next_chg;
   (match st.reporting with Some s -> pn s.s_id | None -> p 0L);
@@ -118,16 +118,16 @@ let out_str (o : out) : string =
 (* ---- snapshot parsing (spec mode) *)
 let parse_sub (f : string list) : sub0 * string list =
   match f with
-  | id :: fab :: peer :: mn :: mx :: rep :: retry :: fail :: seen :: seenev :: mask :: rest ->
+  | id :: fab :: peer :: mn :: mx :: rep :: acc :: retry :: fail :: seen :: seenev :: mask :: rest ->
       ({ s_id = n_of_string id; s_fab = n_of_string fab; s_peer = n_of_string peer;
-         s_min = n_of_string mn; s_max = n_of_string mx; s_rep_at = n_of_inst rep;
+         s_min = n_of_string mn; s_max = n_of_string mx; s_rep_at = n_of_inst rep; s_acc = n_of_inst acc;
          s_retry_at = n_of_inst retry; s_fail = n_of_string fail; s_seen = n_of_string seen;
          s_seen_ev = n_of_string seenev; s_paths = paths_of_mask (int_of_string mask);
          s_del = []; s_dev = N0; s_since = N0 }, rest)
   | _ -> failwith "bad sub"
 
 let dummy_sub (id : n) : sub0 =
-  { s_id = id; s_fab = N0; s_peer = N0; s_min = N0; s_max = N0; s_rep_at = N0; s_retry_at = N0;
+  { s_id = id; s_fab = N0; s_peer = N0; s_min = N0; s_max = N0; s_rep_at = N0; s_acc = N0; s_retry_at = N0;
     s_fail = N0; s_seen = N0; s_seen_ev = N0; s_paths = []; s_del = []; s_dev = N0; s_since = N0 }
 
 let parse_snapshot (s : string) : state =
@@ -173,7 +173,7 @@ let inv_clause (st : state) : string option =
 
 let spec_case (id : string) (toks : string list) : unit =
   let g = ref init in
-  let viol = ref None and known = ref None in
+  let viol = ref None in
   let flag k name = if !viol = None then viol := Some (Printf.sprintf "%s step=%d" name k) in
   List.iteri (fun k tok ->
     if !viol = None then
@@ -198,19 +198,13 @@ let spec_case (id : string) (toks : string list) : unit =
                 | Some x, Some s' -> if not (retry_ok x s') then flag k ("retry_same_content sub=" ^ string_of_n sid)
                 | _ -> ())
            | OWake now ->
-               if not (swept_ok after now) then flag k "expiry_sweep";
                List.iter (fun s ->
-                 if not (expiry_ok s now) then begin
-                   if unprimed s then
-                     (if !known = None then known := Some (Printf.sprintf "unprimed_never_expires step=%d sub=%s" k (string_of_n s.s_id)))
-                   else flag k ("expiry sub=" ^ string_of_n s.s_id)
-                 end) after.subs
+                 if not (expiry_ok s now) then flag k ("expiry sub=" ^ string_of_n s.s_id)) after.subs
            | _ -> ())
       | _ -> failwith ("bad trace token: " ^ tok)) toks;
-  match !viol, !known with
-  | Some v, _ -> Printf.printf "T %s VIOL %s\n" id v
-  | None, Some k -> Printf.printf "T %s KNOWN %s\n" id k
-  | None, None -> Printf.printf "T %s ok\n" id
+  match !viol with
+  | Some v -> Printf.printf "T %s VIOL %s\n" id v
+  | None -> Printf.printf "T %s ok\n" id
 
 let model_case (id : string) (toks : string list) : unit =
   let st = ref init and clock = ref N0 in
